@@ -240,6 +240,63 @@ def main(pid, tier, seed):
         meta[tid] = {'pool': pool, 'passwords': pws[:10], 'candidates': len(cands), 'language': len(lang), 'cand_list': cands}
         n_cands += len(cands)
 
+    # ---- the shipped rulesets (hundreds of thousands of terminals, languages far too large to enumerate): the guesser's side of
+    # ---- the promise is decided by MATCHING the string against the loaded grammar (expand.grammar_derivation_probs) instead
+    # ---- of looking it up in an enumerated language
+    shipped = {}
+    for rname in ('Default', 'Russian'):
+        d = os.path.join(core.REPO, 'Rules', rname)
+        if not os.path.isdir(os.path.join(d, 'Grammar')) or (tier == 'quick' and rname != 'Default'):
+            continue
+        sc = make_scorer(d)
+        pcfg = ptq.load_pcfg(d)
+        if sc is None:
+            continue
+        # candidates: what the guesser emits first, the most and the least probable words of a few lengths glued together,
+        # perturbations of all of these, fixed strings
+        hist = ptq.run_history(pcfg, [], with_queue=False, max_pops=60 if tier == 'quick' else 600)
+        cands = set()
+        for it, _ in hist['sessions'][0]['ev']:
+            if it['pt'][0][0] == 'M':
+                continue
+            lines, n = expand.expand_real(pcfg, it['pt'], limit=3)
+            cands.update(lines[:3])
+        words = []
+        for n_ in (3, 4, 5, 6, 8):
+            gs = pcfg.grammar.get('A%d' % n_, [])
+            vals = [v for g in gs for v in g['values']]
+            words += vals[:6] + vals[-3:]
+        for _ in range(40 if tier == 'quick' else 1500):
+            a, b = rng.choice(words), rng.choice(words)
+            cands.update([a + b, a.capitalize() + b, a + b.upper(), a + rng.choice(['1', '12', '123', '2019', '!', '#1', '1qaz']) + b, a + b + '1'])
+        for s_ in list(cands)[:60 if tier == 'quick' else 1500]:
+            cands |= perturb(rng, s_)
+        cands.update(['zzzzqqq', 'P@ssw0rd', 'Mr.Bean', 'test1234test', 'a@b.com', 'www.x.org', ' ', 'qwerty123!', 'ILoveYou', 'пароль1', 'Наташа'])
+        cands = sorted(x for x in cands if x and len(x) <= 30)
+        if tier == 'quick':
+            cands = cands[:1] + rng.sample(cands[1:], min(len(cands) - 1, 420))
+        first = {s_: sc.parse(s_) for s_ in cands}
+        second = {s_: sc.parse(s_) for s_ in reversed(cands)}
+        drv = {s_: expand.grammar_derivation_probs(pcfg, s_) for s_ in cands}
+        floats = set()
+        for s_ in cands:
+            floats.update([first[s_][2], second[s_][2]])
+            floats.update(drv[s_])
+        floats.discard(0)
+        rk = cluster(floats)
+        ids = {}
+        ident = lambda s_: ids.setdefault(s_, len(ids) + 1)
+        cl = [{'s': ident(s_), 'r': rk.get(first[s_][2], 0) if first[s_][2] else 0, 'cat': first[s_][1],
+               'dr': sorted({rk[p_] for p_ in drv[s_] if p_ in rk}), 'ew': detect_ew(s_),
+               'again': rk.get(second[s_][2], 0) if second[s_][2] else 0} for s_ in cands]
+        tid += 1
+        traces.append({'tid': tid, 'cands': cl})
+        meta[tid] = {'pool': 'shipped ruleset ' + rname, 'passwords': ['(shipped ruleset %s)' % rname], 'candidates': len(cands), 'cand_list': cands,
+                     'language': 'not enumerated: derivations found by matching against the loaded grammar'}
+        n_cands += len(cands)
+        shipped[rname] = {'candidates': len(cands), 'non_zero_scores': sum(1 for s_ in cands if first[s_][2]),
+                          'base_structures': len(pcfg.base)}
+
     # ---- composition model (Compose.tla): trainer -> guesser / scorer on every small training list, exact rationals ----
     from . import compose
     comp = compose.stage(tier, random.Random(seed * 104729 + 5), verdict, pid)
@@ -274,7 +331,7 @@ def main(pid, tier, seed):
                    'guesser language table; non-trivial = non-zero score; candidates = training passwords, guesser output, one-edit '
                    'perturbations, unrelated strings, e-mail / website strings',
            'samples': [{'passwords': meta[s['tid']].get('passwords'), 'candidates': meta[s['tid']].get('cand_list', [])[:12]}],
-           'trainings': len(traces), 'rescored_with_a_cutoff_above_0': n_limit[0], 'scored_again_by_the_command_line_tool': n_cli[0], 'of_which_differing_from_the_library': n_cli_diff[0], 'of_which_differing': n_limit_diff[0], 'trace_validation': st, 'binding_selftest': selftest, 'model_checking': mc, 'states': mc['states'], 'transitions': mc['transitions'], 'exhaustive': False,
+           'trainings': len(traces), 'shipped_rulesets_scored_against_grammar_matching': shipped, 'rescored_with_a_cutoff_above_0': n_limit[0], 'scored_again_by_the_command_line_tool': n_cli[0], 'of_which_differing_from_the_library': n_cli_diff[0], 'of_which_differing': n_limit_diff[0], 'trace_validation': st, 'binding_selftest': selftest, 'model_checking': mc, 'states': mc['states'], 'transitions': mc['transitions'], 'exhaustive': False,
            'known_findings_reproduced': n_known, 'violation_histogram': verdict.histogram()}
     core.write_evidence(pid, tier, seed, 'model_checking', cov, time.time() - t0, violations=n_viol,
                         assumptions=['TLC compares ranks; floats clustered within relative 1e-9', 'e-mail / website detection recomputed with the detectors',
